@@ -97,6 +97,7 @@ type MapRec struct {
 	ID      int      `json:"id"`
 	Res     int      `json:"res"`
 	TT      int      `json:"tt"` // 1-based index of the track holding the tempo events
+	Fmt     int      `json:"fmt"` // SMF format the file is written with: 0 (one track), 1 or 2 (ticks count per track from 0 in every format)
 	Tracks  []Trk    `json:"tracks"`
 	Queries []Query  `json:"queries"` // sorted by tick
 	Do      [][]DoEv `json:"do"`      // per track, in the order TracksReader.Do handed the events out
@@ -140,9 +141,12 @@ func runMap(rec *MapRec) {
 		o.q = []Query{}
 		p := hx.Catch(func() {
 			var s *smf.SMF
-			if len(rec.Tracks) == 1 {
+			switch {
+			case rec.Fmt == 2:
+				s = smf.NewSMF2()
+			case len(rec.Tracks) == 1 && rec.Fmt == 0:
 				s = smf.New()
-			} else {
+			default:
 				s = smf.NewSMF1()
 			}
 			s.TimeFormat = smf.MetricTicks(rec.Res)
@@ -353,6 +357,13 @@ func genMap(r *rand.Rand, id, nq int, wide bool) *MapRec {
 	feat := map[string]bool{}
 	ntr := hx.Pick(r, 1, 1, 2, 3)
 	rec.TT = 1 + r.Intn(ntr)
+	if ntr > 1 {
+		rec.Fmt = 1
+	}
+	if r.Intn(3) == 0 { // independent sequences: every track still counts its ticks from 0
+		rec.Fmt = 2
+		feat["format2"] = true
+	}
 	dclass := hx.Pick(r, 0, 1, 1, 2, 2, 3, 4, 5)
 	uclass := r.Intn(6)
 	zero := []float64{0, 0.1, 0.3, 0.6}[r.Intn(4)]
